@@ -142,6 +142,12 @@ func runSeedCanaries(rs *RuleSet, repo, verif string, rep *Report) {
 			continue
 		}
 		det := fmt.Sprint(m.DetectedBy)
+		if strings.HasPrefix(det, "MISSED") {
+			if m.Breaks == rs.Property {
+				rep.Canaries = append(rep.Canaries, "seed "+m.ID+": recorded as missed (DESIGN.md 7.5), not required")
+			}
+			continue
+		}
 		if !strings.Contains(det, rs.Property+".R") {
 			continue // not recorded as detected by this property's rules
 		}
